@@ -10,7 +10,13 @@ FIELDS = ['cpu', 'core', 'ram', 'disk', 'bw', 'burst_size', 'unit', 'mtu']
 
 
 def mk(vec):
-    return Capacities(**{f: v for f, v in zip(FIELDS, vec)})
+    """a value with these fields; negative fields cannot come from the constructor - they arise as the result of a
+    subtraction, so that is how they are made (the caller verifies the fields read back before judging anything)"""
+    if all(v >= 0 for v in vec):
+        return Capacities(**{f: v for f, v in zip(FIELDS, vec)})
+    pos = Capacities(**{f: max(v, 0) for f, v in zip(FIELDS, vec)})
+    neg = Capacities(**{f: max(-v, 0) for f, v in zip(FIELDS, vec)})
+    return pos - neg
 
 
 def fd(c):
@@ -36,6 +42,16 @@ def vectors_A():
                 e[i] = 1
                 e[j] = 2
                 out.append(tuple(e))
+    # values that are themselves results of an over-subtraction (negative fields)
+    out.append(tuple([-1] * n))
+    for i in range(n):
+        e = [0] * n
+        e[i] = -3
+        out.append(tuple(e))
+        e = [0] * n
+        e[i] = -1
+        e[(i + 1) % n] = 2
+        out.append(tuple(e))
     return out
 
 
@@ -52,6 +68,9 @@ def eval_pair(case):
         return {'v': [('schema/fields', f'Capacities fields are {sorted(a.__dict__)} expected {sorted(FIELDS)}')],
                 'nt': None, 'out': 'schema'}
     A, B = dict(zip(FIELDS, a_v)), dict(zip(FIELDS, b_v))
+    if fd(a) != A or fd(b) != B:
+        return {'v': [('sub-fieldwise/construction', f'a value with fields {A if fd(a) != A else B} could not be produced by subtraction: got {fd(a) if fd(a) != A else fd(b)}')],
+                'nt': None, 'out': 'construction'}
     try:
         s = a + b
         s2 = b + a
@@ -62,6 +81,9 @@ def eval_pair(case):
         refit = free.free + b
         dd = d + d                      # operands and result may carry negative fields
         zero = d + (b - a)
+        sd = a - (b - a)                # ... on the right of a subtraction too
+        negneg = (a - a) - ((a - a) - b)
+        free_neg = FreeCapacity(total=a, allocated=(b - a))
     except Exception as e:
         return {'v': [(f'raises/arith/{type(e).__name__}', f'arithmetic raised {e!r} for a={A} b={B}')],
                 'nt': (a_v, b_v), 'out': 'raise'}
@@ -78,6 +100,12 @@ def eval_pair(case):
             bad('add-fieldwise-negative-operands', f, f'((a-b)+(a-b)).{f}={fd(dd)[f]} expected {2 * (A[f] - B[f])}')
         if fd(zero)[f] != 0:
             bad('add-fieldwise-negative-operands', f, f'((a-b)+(b-a)).{f}={fd(zero)[f]} expected 0')
+        if fd(sd)[f] != 2 * A[f] - B[f]:
+            bad('sub-fieldwise-negative-operands', f, f'(a-(b-a)).{f}={fd(sd)[f]} expected {2 * A[f] - B[f]}')
+        if fd(negneg)[f] != B[f]:
+            bad('sub-fieldwise-negative-operands', f, f'(0-(0-b)).{f}={fd(negneg)[f]} expected {B[f]}')
+        if getattr(free_neg, f) != 2 * A[f] - B[f]:
+            bad('free-is-total-minus-allocated', f, f'free(total=a, allocated=b-a).{f}={getattr(free_neg, f)} expected {2 * A[f] - B[f]}')
         if getattr(free, f) != A[f] - B[f]:
             bad('free-is-total-minus-allocated', f, f'free.{f}={getattr(free, f)} expected {A[f] - B[f]}')
         if fd(refit)[f] != A[f]:
@@ -178,4 +206,4 @@ def run(report):
                   rule='ordered triples of capacity vectors; non-trivial = all three non-zero',
                   space='small^3')
     report.require(len(g['outcomes']) >= 3, 'at least three distinct comparison outcomes among pairs')
-    report.assumptions.append('capacity values are non-negative ints (the constructor domain); results may be negative')
+    report.assumptions.append('capacity values are ints; negative fields arise only as results of subtraction and are built that way')
